@@ -48,6 +48,9 @@ func main() {
 		fmt.Fprintln(os.Stderr, "replay:", err)
 		os.Exit(2)
 	}
+	if *prop == "C04" {
+		rep.OnlyKinds = map[string]bool{"panic": true, "hang": true}
+	}
 	e := &engine{prop: *prop, seed: *seed, respell: *respell, leadingWS: *leading, rep: rep, extra: map[string]string{}}
 	for _, kv := range strings.Split(*opt, ",") {
 		if i := strings.IndexByte(kv, '='); i > 0 {
@@ -133,6 +136,10 @@ func (e *engine) dispatch(worker int, raw []byte) error {
 		return e.checkDiffLine(worker, raw)
 	case "equal":
 		return e.checkEqualLine(worker, raw)
+	case "word":
+		return e.checkWordLine(worker, raw)
+	case "decode":
+		return e.checkDecodeLine(worker, raw)
 	}
 	if f, ok := v5Families[fam]; ok {
 		return f(e, worker, raw)
